@@ -46,6 +46,9 @@ inline Bytes unhex(const std::string &s) {
 // stdout and points fd 1 at /dev/null, because the code under test prints progress to stdout.
 static FILE *jout = stdout;
 inline void init_json_channel() {
+  static bool done = false;
+  if (done) return;
+  done = true;
   fflush(stdout);
   int d = dup(1);
   jout = fdopen(d, "w");
